@@ -107,7 +107,7 @@ pub fn payloads() -> Vec<(String, Vec<u8>, bool)> {
 
 const ENDINGS: [&str; 5] = ["finish", "reset", "stop_recv", "abandon", "close_conn"];
 
-const STREAM_ATTACKS: [&str; 15] = ["hold_many_bidi", "uni_with_data", "uni_reset", "uni_many", "uni_held_0", "uni_held_1", "uni_held_1024", "uni_held_20000", "datagram_0", "datagram_1", "datagram_1200", "close_abrupt", "close_with_error", "drop_endpoint", "stop_and_reset_everything"];
+const STREAM_ATTACKS: [&str; 17] = ["close_while_served", "drop_endpoint_while_served", "hold_many_bidi", "uni_with_data", "uni_reset", "uni_many", "uni_held_0", "uni_held_1", "uni_held_1024", "uni_held_20000", "datagram_0", "datagram_1", "datagram_1200", "close_abrupt", "close_with_error", "drop_endpoint", "stop_and_reset_everything"];
 
 fn cfg() -> anemo::Config {
     let mut c = anemo::Config::default();
@@ -289,6 +289,31 @@ async fn scenario(sim: Arc<Sim>, unit: Value) -> Obs {
                     held_uni.push(s);
                 }
             }
+            "close_while_served" | "drop_endpoint_while_served" => {
+                // several well-formed requests whose handlers are still running when the peer goes
+                for i in 0..3 {
+                    if let Ok((mut tx, rx)) = conn.open_bi().await {
+                        let _ = tx.write_all(&encode_request("/echo", &[("id", &format!("adv-s{i}")), ("sleep-ms", "400")], b"x")).await;
+                        let _ = tx.finish();
+                        held.push((tx, rx));
+                    }
+                }
+                for _ in 0..100 {
+                    if sim.svc.started("adv-s0") > 0 {
+                        break;
+                    }
+                    tokio::time::sleep(ms(5)).await;
+                }
+                if sim.svc.started("adv-s0") == 0 {
+                    viol!("setup", "{ctx} the slow requests never reached a handler");
+                }
+                if unit["attack"] == "close_while_served" {
+                    conn.close(0u32.into(), b"");
+                } else {
+                    adv.endpoint.close(1u32.into(), b"gone");
+                }
+                conn_open = false;
+            }
             "datagram_0" => drop(conn.send_datagram(bytes::Bytes::new())),
             "datagram_1" => drop(conn.send_datagram(bytes::Bytes::from_static(b"x"))),
             "datagram_1200" => {
@@ -431,7 +456,7 @@ impl Check for C06 {
         CheckMeta {
             property: "C06",
             level: "fault_enumeration",
-            rule: "an admitted adversary (raw QUIC endpoint, valid identity) x byte string on a request stream (valid, cut at 15 offsets, garbage, wrong tag/version/reserved, 10 hostile length prefixes, bincode with absurd string/map sizes, invalid UTF-8, trailing bytes, response-shaped, 20 well-formed-but-unusual requests: timeout header values, empty/64 KiB route, multi-byte characters straddling bytes 64 / 256, 300 headers, duplicate keys, 1 MiB body) x ending {finish, reset, stop, abandon, connection close} x optional mid-frame split x placement {before, during, after} an honest peer's in-flight RPC; stream-level attacks (hold limit+3 streams, uni streams finished / reset / 150 at once / held open after 0, 1, 1024, 20000 bytes, datagrams 0/1/1200 B, abrupt closes, endpoint drop, stop+reset storms); each followed by a well-formed RPC on a sibling stream, honest RPCs, a new honest connection; plus the decoders on the same byte strings under an address-space cap; distinct = distinct (attack kind, connection state)".into(),
+            rule: "an admitted adversary (raw QUIC endpoint, valid identity) x byte string on a request stream (valid, cut at 15 offsets, garbage, wrong tag/version/reserved, 10 hostile length prefixes, bincode with absurd string/map sizes, invalid UTF-8, trailing bytes, response-shaped, 20 well-formed-but-unusual requests: timeout header values, empty/64 KiB route, multi-byte characters straddling bytes 64 / 256, 300 headers, duplicate keys, 1 MiB body) x ending {finish, reset, stop, abandon, connection close} x optional mid-frame split x placement {before, during, after} an honest peer's in-flight RPC; stream-level attacks (hold limit+3 streams, uni streams finished / reset / 150 at once / held open after 0, 1, 1024, 20000 bytes, datagrams 0/1/1200 B, abrupt closes, endpoint drop, the same while three of its well-formed requests are being served, stop+reset storms); each followed by a well-formed RPC on a sibling stream, honest RPCs, a new honest connection; plus the decoders on the same byte strings under an address-space cap; distinct = distinct (attack kind, connection state)".into(),
             assumptions: vec!["one adversary connection at a time; bidi stream limit 6".into()],
             exhaustive: true,
         }
